@@ -533,43 +533,58 @@ def readSpec (V : Inst → String → Option Nat) (s : State) (x : Inst) : List 
     | some o => V o pk
     | none => readSpec V s x rest
 
-/-- ACYCLICITY of the referential reads: a rank that decreases along every target link that a read follows -/
+/-- ACYCLICITY of the referential reads, as first stated: a rank on INSTANCES that decreases along every target link.  It is
+    stronger than needed (a ring of instances whose referential attribute reads the partner's OWN id has no such rank although
+    every read ends after one step); the theorems below use `ReadRank`, which this implies (`readRank_of_rankDecreases`) -/
 def RankDecreases (s : State) (rk : Inst → Nat) : Prop :=
   ∀ i x o, ((s.links i).tgt x).head? = some o → rk o < rk x
 
-/-- the layers of one instance, for every sufficient fuel, given stability for all instances of smaller rank -/
-theorem readLayers_stable_step (sch : Schema) (at_ : Attrs) (s : State) (rk : Inst → Nat) (K : Nat)
-    (hdec : RankDecreases s rk) (x : Inst)
-    (ih : ∀ o, rk o < rk x → ∀ name f1 f2, bnd K (rk o) ≤ f1 → bnd K (rk o) ≤ f2 →
-      getAttr sch at_ s f1 o name = getAttr sch at_ s f2 o name)
-    (Bo : Nat) (hBo : ∀ o, rk o < rk x → bnd K (rk o) ≤ Bo) :
-    ∀ (layers : List (Nat × String)) (g1 g2 : Nat), layers.length + Bo ≤ g1 → layers.length + Bo ≤ g2 →
+/-- ACYCLICITY of the referential reads on READ STATES (instance, attribute): the rank drops from the read of `x.name` to the
+    read it continues with — `o.pk`, for a layer `(i, pk)` of `name` on the class of `x` across which `x` has the partner `o`.
+    Links that the read of no attribute follows, and partners whose `pk` is not referential (the read ends there), put no
+    constraint on the rank. -/
+def ReadRank (sch : Schema) (s : State) (rk : Inst → String → Nat) : Prop :=
+  ∀ x name i pk o, (i, pk) ∈ formalFrom (s.kindOf x) name 0 sch → ((s.links i).tgt x).head? = some o → rk o pk < rk x name
+
+theorem readRank_of_rankDecreases (sch : Schema) (s : State) (rk : Inst → Nat) (h : RankDecreases s rk) :
+    ReadRank sch s (fun x _ => rk x) :=
+  fun x _ i _ o _ ho => h i x o ho
+
+/-- the layers of one read, for every sufficient fuel, given stability for all reads of smaller rank -/
+theorem readLayers_stable_step (sch : Schema) (at_ : Attrs) (s : State) (rk : Inst → String → Nat) (K : Nat)
+    (hdec : ReadRank sch s rk) (x : Inst) (name : String)
+    (ih : ∀ o pk, rk o pk < rk x name → ∀ f1 f2, bnd K (rk o pk) ≤ f1 → bnd K (rk o pk) ≤ f2 →
+      getAttr sch at_ s f1 o pk = getAttr sch at_ s f2 o pk)
+    (Bo : Nat) (hBo : ∀ o pk, rk o pk < rk x name → bnd K (rk o pk) ≤ Bo) :
+    ∀ (layers : List (Nat × String)), (∀ q ∈ layers, q ∈ formalFrom (s.kindOf x) name 0 sch) →
+      ∀ (g1 g2 : Nat), layers.length + Bo ≤ g1 → layers.length + Bo ≤ g2 →
       readLayers sch at_ s g1 x layers = readLayers sch at_ s g2 x layers
-  | [], g1, g2, _, _ => by
+  | [], _, g1, g2, _, _ => by
     cases g1 <;> cases g2 <;> simp [readLayers]
-  | (i, pk) :: rest, g1, g2, h1, h2 => by
+  | (i, pk) :: rest, hsub, g1, g2, h1, h2 => by
     obtain ⟨g1', rfl⟩ : ∃ g, g1 = g + 1 := ⟨g1 - 1, by simp at h1; omega⟩
     obtain ⟨g2', rfl⟩ : ∃ g, g2 = g + 1 := ⟨g2 - 1, by simp at h2; omega⟩
     simp only [List.length_cons] at h1 h2
     unfold readLayers
     cases ho : ((s.links i).tgt x).head? with
     | some o =>
-      have hr := hdec i x o ho
-      exact ih o hr pk g1' g2' (by have := hBo o hr; omega) (by have := hBo o hr; omega)
+      have hr := hdec x name i pk o (hsub (i, pk) (List.mem_cons_self ..)) ho
+      exact ih o pk hr g1' g2' (by have := hBo o pk hr; omega) (by have := hBo o pk hr; omega)
     | none =>
       cases rest with
       | nil => rfl
       | cons q qs =>
-        exact readLayers_stable_step sch at_ s rk K hdec x ih Bo hBo (q :: qs) g1' g2' (by simp at h1 ⊢; omega) (by simp at h2 ⊢; omega)
+        exact readLayers_stable_step sch at_ s rk K hdec x name ih Bo hBo (q :: qs)
+          (fun q' hq' => hsub q' (List.mem_cons_of_mem _ hq')) g1' g2' (by simp at h1 ⊢; omega) (by simp at h2 ⊢; omega)
 
-/-- fuel independence: above `bnd (layerBound sch + 2) (rk x)` the result of a read no longer depends on the fuel -/
-theorem getAttr_stable (sch : Schema) (at_ : Attrs) (s : State) (rk : Inst → Nat) (hdec : RankDecreases s rk) :
-    ∀ (n : Nat) (x : Inst), rk x = n → ∀ name f1 f2, bnd (layerBound sch + 2) n ≤ f1 → bnd (layerBound sch + 2) n ≤ f2 →
-      getAttr sch at_ s f1 x name = getAttr sch at_ s f2 x name := by
+/-- fuel independence: above `bnd (layerBound sch + 2) (rk x name)` the result of a read no longer depends on the fuel -/
+theorem getAttr_stable (sch : Schema) (at_ : Attrs) (s : State) (rk : Inst → String → Nat) (hdec : ReadRank sch s rk) :
+    ∀ (n : Nat) (x : Inst) (name : String), rk x name = n → ∀ f1 f2, bnd (layerBound sch + 2) n ≤ f1 →
+      bnd (layerBound sch + 2) n ≤ f2 → getAttr sch at_ s f1 x name = getAttr sch at_ s f2 x name := by
   intro n
   induction n using Nat.strongRecOn with
   | _ n IH =>
-    intro x hx name f1 f2 h1 h2
+    intro x name hx f1 f2 h1 h2
     have hK : 2 ≤ bnd (layerBound sch + 2) n := by
       cases n with
       | zero => simp [bnd]
@@ -579,79 +594,136 @@ theorem getAttr_stable (sch : Schema) (at_ : Attrs) (s : State) (rk : Inst → N
     unfold getAttr
     have hlen : ((formalFrom (s.kindOf x) name 0 sch).reverse).length ≤ layerBound sch := by
       rw [List.length_reverse]; exact formalFrom_length_le _ _ _ _
+    have hsub : ∀ q ∈ (formalFrom (s.kindOf x) name 0 sch).reverse, q ∈ formalFrom (s.kindOf x) name 0 sch :=
+      fun q hq => List.mem_reverse.mp hq
     cases hl : (formalFrom (s.kindOf x) name 0 sch).reverse with
     | nil => rfl
     | cons p ps =>
       simp only
-      rw [hl] at hlen
-      have ih' : ∀ o, rk o < rk x → ∀ nm a b, bnd (layerBound sch + 2) (rk o) ≤ a → bnd (layerBound sch + 2) (rk o) ≤ b →
-          getAttr sch at_ s a o nm = getAttr sch at_ s b o nm :=
-        fun o ho nm a b ha hb => IH (rk o) (hx ▸ ho) o rfl nm a b ha hb
+      rw [hl] at hlen hsub
+      have ih' : ∀ o pk, rk o pk < rk x name → ∀ a b, bnd (layerBound sch + 2) (rk o pk) ≤ a →
+          bnd (layerBound sch + 2) (rk o pk) ≤ b → getAttr sch at_ s a o pk = getAttr sch at_ s b o pk :=
+        fun o pk ho a b ha hb => IH (rk o pk) (hx ▸ ho) o pk rfl a b ha hb
       cases n with
       | zero =>
-        apply readLayers_stable_step sch at_ s rk _ hdec x ih' 0 (fun o ho => by omega)
+        apply readLayers_stable_step sch at_ s rk _ hdec x name ih' 0 (fun o pk ho => by omega) _ hsub
         · simp only [bnd] at h1; omega
         · simp only [bnd] at h2; omega
       | succ m =>
-        apply readLayers_stable_step sch at_ s rk _ hdec x ih' (bnd (layerBound sch + 2) m)
-          (fun o ho => bnd_mono _ (by omega))
+        apply readLayers_stable_step sch at_ s rk _ hdec x name ih' (bnd (layerBound sch + 2) m)
+          (fun o pk ho => bnd_mono _ (by omega)) _ hsub
         · simp only [bnd] at h1; omega
         · simp only [bnd] at h2; omega
 
 /-- the converged value of an attribute -/
-def readValue (sch : Schema) (at_ : Attrs) (s : State) (rk : Inst → Nat) (x : Inst) (name : String) : Option Nat :=
-  getAttr sch at_ s (bnd (layerBound sch + 2) (rk x)) x name
+def readValue (sch : Schema) (at_ : Attrs) (s : State) (rk : Inst → String → Nat) (x : Inst) (name : String) : Option Nat :=
+  getAttr sch at_ s (bnd (layerBound sch + 2) (rk x name)) x name
 
-theorem readLayers_spec (sch : Schema) (at_ : Attrs) (s : State) (rk : Inst → Nat) (hdec : RankDecreases s rk) (x : Inst)
-    (Bo : Nat) (hBo : ∀ o, rk o < rk x → bnd (layerBound sch + 2) (rk o) ≤ Bo) :
-    ∀ (layers : List (Nat × String)) (g : Nat), layers.length + Bo ≤ g →
+theorem readLayers_spec (sch : Schema) (at_ : Attrs) (s : State) (rk : Inst → String → Nat) (hdec : ReadRank sch s rk)
+    (x : Inst) (name : String)
+    (Bo : Nat) (hBo : ∀ o pk, rk o pk < rk x name → bnd (layerBound sch + 2) (rk o pk) ≤ Bo) :
+    ∀ (layers : List (Nat × String)), (∀ q ∈ layers, q ∈ formalFrom (s.kindOf x) name 0 sch) →
+      ∀ (g : Nat), layers.length + Bo ≤ g →
       readLayers sch at_ s g x layers = readSpec (readValue sch at_ s rk) s x layers
-  | [], g, _ => by cases g <;> simp [readLayers, readSpec]
-  | (i, pk) :: rest, g, h => by
+  | [], _, g, _ => by cases g <;> simp [readLayers, readSpec]
+  | (i, pk) :: rest, hsub, g, h => by
     obtain ⟨g', rfl⟩ : ∃ k, g = k + 1 := ⟨g - 1, by simp at h; omega⟩
     simp only [List.length_cons] at h
     unfold readLayers readSpec
     cases ho : ((s.links i).tgt x).head? with
     | some o =>
-      have hr := hdec i x o ho
+      have hr := hdec x name i pk o (hsub (i, pk) (List.mem_cons_self ..)) ho
       simp only
       unfold readValue
-      exact getAttr_stable sch at_ s rk hdec (rk o) o rfl pk g' _ (by have := hBo o hr; omega) (Nat.le_refl _)
+      exact getAttr_stable sch at_ s rk hdec (rk o pk) o pk rfl g' _ (by have := hBo o pk hr; omega) (Nat.le_refl _)
     | none =>
       cases rest with
       | nil => simp [readSpec]
       | cons q qs =>
         simp only
-        exact readLayers_spec sch at_ s rk hdec x Bo hBo (q :: qs) g' (by simp at h ⊢; omega)
+        exact readLayers_spec sch at_ s rk hdec x name Bo hBo (q :: qs)
+          (fun q' hq' => hsub q' (List.mem_cons_of_mem _ hq')) g' (by simp at h ⊢; omega)
 
 /-- THE referential-read clause, for a general layer list and EVERY sufficient fuel: an attribute that no association
     formalises reads the instance's own id (or is unset); a referential attribute reads the (converged) identifying value
     of the partner across the outermost layer that has a partner, and is unset when no layer has one -/
-theorem getAttr_spec (sch : Schema) (at_ : Attrs) (s : State) (rk : Inst → Nat) (hdec : RankDecreases s rk)
-    (x : Inst) (name : String) (fuel : Nat) (hf : bnd (layerBound sch + 2) (rk x) ≤ fuel) :
+theorem getAttr_spec (sch : Schema) (at_ : Attrs) (s : State) (rk : Inst → String → Nat) (hdec : ReadRank sch s rk)
+    (x : Inst) (name : String) (fuel : Nat) (hf : bnd (layerBound sch + 2) (rk x name) ≤ fuel) :
     getAttr sch at_ s fuel x name =
       match (formalFrom (s.kindOf x) name 0 sch).reverse with
       | [] => if at_.idName (s.kindOf x) = some name then some (s.idOf x) else none
       | layers => readSpec (readValue sch at_ s rk) s x layers := by
-  have hK : 2 ≤ bnd (layerBound sch + 2) (rk x) := by
-    cases rk x with
+  have hK : 2 ≤ bnd (layerBound sch + 2) (rk x name) := by
+    cases rk x name with
     | zero => simp [bnd]
     | succ m => simp only [bnd]; omega
   obtain ⟨g, rfl⟩ : ∃ g, fuel = g + 1 := ⟨fuel - 1, by omega⟩
   unfold getAttr
   have hlen : ((formalFrom (s.kindOf x) name 0 sch).reverse).length ≤ layerBound sch := by
     rw [List.length_reverse]; exact formalFrom_length_le _ _ _ _
+  have hsub : ∀ q ∈ (formalFrom (s.kindOf x) name 0 sch).reverse, q ∈ formalFrom (s.kindOf x) name 0 sch :=
+    fun q hq => List.mem_reverse.mp hq
   cases hl : (formalFrom (s.kindOf x) name 0 sch).reverse with
   | nil => rfl
   | cons p ps =>
     simp only
-    rw [hl] at hlen
-    cases hr : rk x with
+    rw [hl] at hlen hsub
+    cases hr : rk x name with
     | zero =>
-      apply readLayers_spec sch at_ s rk hdec x 0 (fun o ho => by omega)
+      apply readLayers_spec sch at_ s rk hdec x name 0 (fun o pk ho => by omega) _ hsub
       rw [hr] at hf; simp only [bnd] at hf; omega
     | succ m =>
-      apply readLayers_spec sch at_ s rk hdec x (bnd (layerBound sch + 2) m) (fun o ho => bnd_mono _ (by omega))
+      apply readLayers_spec sch at_ s rk hdec x name (bnd (layerBound sch + 2) m) (fun o pk ho => bnd_mono _ (by omega)) _ hsub
       rw [hr] at hf; simp only [bnd] at hf; omega
+
+/-! ### the driver's fuel, and ranks that come from the SCHEMA alone -/
+
+/-- THE fuel the drivers give a referential read (one definition, used by Driver/C02.lean and by `driver_fuel_sufficient`):
+    enough for every read whose rank is at most `s.count + layerBound sch` — instance ranks (at most the number of instances)
+    and attribute ranks (at most the number of referential keys) both are -/
+def driverFuel (sch : Schema) (s : State) : Nat := (s.count + layerBound sch + 1) * (layerBound sch + 2)
+
+/-- a rank on the ATTRIBUTES of the schema that drops along every key pair: the referential keys do not refer to one another
+    in a cycle (`A.B_Id → B.Id → C.Id` is fine, `N.Next_Id → N.Next_Id` is not) -/
+def AttrRank (sch : Schema) (ar : Kind → String → Nat) : Prop :=
+  ∀ a ∈ sch, ∀ p ∈ keyPairs a, ar a.tgtKind p.2 < ar a.srcKind p.1
+
+/-- partners across association `i` are of its target kind (what `relate` establishes: it finds the association from the
+    kinds of its two arguments) -/
+def KindsOk (sch : Schema) (s : State) : Prop :=
+  ∀ i a x o, sch[i]? = some a → ((s.links i).tgt x).head? = some o → s.kindOf o = a.tgtKind
+
+theorem mem_formalFrom (k : Kind) (attr : String) : ∀ (sch : Schema) (j i : Nat) (pk : String),
+    (i, pk) ∈ formalFrom k attr j sch → ∃ a, sch[i - j]? = some a ∧ j ≤ i ∧ a.srcKind = k ∧ (attr, pk) ∈ keyPairs a
+  | [], _, _, _, h => by simp [formalFrom] at h
+  | a :: rest, j, i, pk, h => by
+    simp only [formalFrom, List.mem_append] at h
+    rcases h with h | h
+    · by_cases hk : a.srcKind = k
+      · simp only [hk, ↓reduceIte, List.mem_map, List.mem_filter, decide_eq_true_eq, Prod.mk.injEq] at h
+        obtain ⟨p, ⟨hp, hpa⟩, hi, hpk⟩ := h
+        subst hi
+        refine ⟨a, by simp, Nat.le_refl _, hk, ?_⟩
+        rw [← hpa, ← hpk]
+        exact hp
+      · simp [hk] at h
+    · obtain ⟨b, hb, hj, hk, hp⟩ := mem_formalFrom k attr rest (j + 1) i pk h
+      refine ⟨b, ?_, by omega, hk, hp⟩
+      have : i - j = (i - (j + 1)) + 1 := by omega
+      rw [this, List.getElem?_cons_succ]
+      exact hb
+
+/-- in a well-kinded state a schema-level attribute rank is a read rank: the acyclicity hypothesis then is a property of the
+    SCHEMA, the same for every state (rings and self-links of instances included) -/
+theorem readRank_of_attrRank (sch : Schema) (s : State) (ar : Kind → String → Nat) (har : AttrRank sch ar)
+    (hk : KindsOk sch s) : ReadRank sch s (fun x name => ar (s.kindOf x) name) := by
+  intro x name i pk o hmem ho
+  obtain ⟨a, ha, _, hsrc, hp⟩ := mem_formalFrom (s.kindOf x) name sch 0 i pk hmem
+  simp only [Nat.sub_zero] at ha
+  have hko := hk i a x o ha ho
+  have := har a (List.mem_of_getElem? ha) (name, pk) hp
+  show ar (s.kindOf o) pk < ar (s.kindOf x) name
+  rw [hko, ← hsrc]
+  exact this
 
 end Pyx.Meta
